@@ -96,11 +96,9 @@ Lemma codes_registry_wellformed :
   mem_str "invalid_annotation" registered_codes = true /\ 50 <= length registered_codes.
 Proof. vm_compute. repeat split; try reflexivity. repeat constructor. Qed.
 
-(* ---- show_error: the source still has the shape Total/Emit.v was written for ---- *)
-Lemma show_error_shape_pinned :
-  show_error_subscripts = pinned_subscripts /\ show_error_context_bounds = pinned_context_bounds /\
-  BinInt.Z.of_nat show_error_context_lines = CONTEXT_LINES.
-Proof. vm_compute. repeat split; reflexivity. Qed.
+(* ---- show_error: the constants translated from node_visitor.py satisfy what the theorems need ---- *)
+Lemma show_error_params_ok : params_ok show_error_params = true.
+Proof. vm_compute. reflexivity. Qed.
 
 (* ---- enum dispatch chains with a crashing else branch (every such chain of the package) ---- *)
 Definition members_of (e : string) : list string :=
@@ -142,4 +140,41 @@ Lemma bound_chain_total : forall c, In c bound_family -> crashes [] bound_chain_
 Proof.
   assert (G : forallb (fun c => negb (crashes [] bound_chain_handled c)) bound_family = true) by (vm_compute; reflexivity).
   intros c Hc. rewrite forallb_forall in G. specialize (G c Hc). destruct (crashes [] bound_chain_handled c); [discriminate|reflexivity].
+Qed.
+
+(* ---- NameCheckVisitor._get_typeis_parameter (translated into Gen.Total.typeis_index) ---- *)
+From Coq Require Import Arith Lia.
+Open Scope nat_scope.
+
+Ltac typeis_cases H :=
+  repeat match type of H with
+         | context [if ?c then _ else _] => let E := fresh "E" in destruct c eqn:E
+         end.
+
+Ltac nat_bools :=
+  repeat match goal with
+         | E : (_ <=? _) = true |- _ => apply Nat.leb_le in E
+         | E : (_ <=? _) = false |- _ => apply Nat.leb_gt in E
+         | E : (_ <? _) = true |- _ => apply Nat.ltb_lt in E
+         | E : (_ <? _) = false |- _ => apply Nat.ltb_ge in E
+         | E : (_ =? _) = true |- _ => apply Nat.eqb_eq in E
+         | E : (_ =? _) = false |- _ => apply Nat.eqb_neq in E
+         | E : negb _ = true |- _ => apply negb_true_iff in E
+         | E : negb _ = false |- _ => apply negb_false_iff in E
+         end.
+
+(* the subscript info.params[index] is in range whenever it is reached *)
+Lemma typeis_index_in_range : forall cm im n i, typeis_index cm im n = Some i -> i < n.
+Proof.
+  intros cm im n i H. unfold typeis_index in H. destruct cm, im; cbv beta iota delta [orb andb negb] in H; typeis_cases H;
+    try discriminate; injection H as H; subst; nat_bools; lia.
+Qed.
+
+(* it is the parameter after self / cls, and it is found whenever it exists *)
+Lemma typeis_index_spec : forall cm im n,
+  typeis_index cm im n = (let k := if cm || im then 1 else 0 in if k <? n then Some k else None).
+Proof.
+  intros cm im n. unfold typeis_index. destruct cm, im; cbv beta iota delta [orb andb negb];
+    repeat match goal with |- context [if ?c then _ else _] => let E := fresh "E" in destruct c eqn:E end;
+    try reflexivity; nat_bools; try lia; exfalso; nat_bools; lia.
 Qed.
